@@ -463,7 +463,10 @@ def load_signatures_from_json(
             sigs.append(sig)
 
         for sig in sigs:
-            yield sig.to_frozen()
+            # freshly created from the Rust object: freeze in place (a copy would
+            # rebuild the envelope -- license, class, email, version -- from defaults)
+            sig.into_frozen()
+            yield sig
 
     except Exception:
         if do_raise:
